@@ -395,7 +395,14 @@ func normalizeStructInto(cfg *Config, opts *options, from reflect.Value) Error {
 
 		if tagOpts.squash {
 			vField := chaseValue(v.Field(i))
-			switch vField.Kind() {
+			kind := vField.Kind()
+			if kind == reflect.Ptr {
+				// a nil pointer to a struct or map holds no settings to inline
+				if k := chaseTypePointers(vField.Type()).Kind(); k == reflect.Struct || k == reflect.Map {
+					continue
+				}
+			}
+			switch kind {
 			case reflect.Struct:
 				err = normalizeStructInto(cfg, opts, vField)
 			case reflect.Map:
